@@ -345,8 +345,13 @@ theorem C28_full_iff (cfg : Cfg) (hc : cfg.covers = true) : Full cfg ↔ cfg.wra
 /-! ### the hypotheses are satisfiable, the guard is not vacuous -/
 
 /-- the table of the Tracked classes before iterables and tuples were wrapped (for the examples only) -/
-def cfgUnwrapped : Cfg := { listOv := LM.all, dictOv := DM.all, arrOv := LM.all, tupleMode := .leave,
-  iterUnwrapped := [(.extend, .tuple), (.extend, .gen), (.ior, .list)], notifyOnError := false }
+def cfgUnwrapped : Cfg := {
+  listOv := LM.all,
+  dictOv := DM.all,
+  arrOv := LM.all,
+  tupleMode := TupleMode.leave,
+  iterUnwrapped := [(.extend, .tuple), (.extend, .gen), (.ior, .list)],
+  notifyOnError := false }
 
 example : cfgUnwrapped.covers = true ∧ cfgUnwrapped.wrapsAll = false := by decide
 example : Inv (St.load table v0) := C28_load_wrapped table v0 (by decide)
